@@ -512,18 +512,37 @@ def gen_loc_file(rng):
                            (0x40, 0x0a if ver < 4 else 0x18, bytes([len(fb)]) + fb, None)])
         nl = rng.choice([1, 2, 4])
         for k in range(nl):
-            off = len(loc)
             pos = 0
+            body = bytearray()
+            nent = 0
             for e in range(rng.choice([1, 2, 3, 0] if k else [1, 2, 3])):       # 0: nothing but the terminator (a variable that is nowhere live)
                 if rng.random() < 0.15:
-                    loc += struct.pack(A, MAXA) + struct.pack(A, low + 0x100)  # base address selection: the following rows move
+                    body += struct.pack(A, MAXA) + struct.pack(A, low + 0x100)  # base address selection: the following rows move
                 a = pos + rng.choice([0, 4, 0x10])
-                b = a + rng.choice([1, 8, 0x40])
+                b = a + rng.choice([1, 8, 0x40, 0])                             # 0: an empty range
+                if a == 0 and b == 0:
+                    a = b = 4                                                   # (0, 0) would be the terminator
                 pos = b
                 x = rng.choice(exprs)
-                loc += struct.pack(A, a) + struct.pack(A, b) + struct.pack(E + 'H', len(x)) + x
-            loc += struct.pack(A, 0) * 2
-            cu.add(0x34, [(0x02, lform, struct.pack(O, off), None)], label='v%d' % k)
+                body += struct.pack(A, a) + struct.pack(A, b) + struct.pack(E + 'H', len(x)) + x
+                nent += 1
+            body += struct.pack(A, 0) * 2
+            attrs = []
+            if nent and rng.random() < 0.3:
+                # location views (gcc -gvariable-location-views): one pair of numbers per location entry, stored before the list
+                voff = len(loc)
+                for e in range(nent):
+                    loc += uleb(rng.choice([0, 1, 2, 0x3f, 0x40, 0x7f, 0xc1])) + uleb(rng.choice([0, 1, 2, 0x40, 0x7f, 300]))
+                attrs.append((0x2137, lform, struct.pack(O, voff), None))
+            off = len(loc)
+            loc += body
+            cu.add(0x34, [(0x02, lform, struct.pack(O, off), None)] + attrs, label='v%d' % k)
+        if rng.random() < 0.3:
+            # the hidden length of a Fortran character argument: a list referred to by DW_AT_string_length only
+            off = len(loc)
+            x = bytes([0x91]) + sleb(-32)
+            loc += struct.pack(A, 8) + struct.pack(A, 0x30) + struct.pack(E + 'H', len(x)) + x + struct.pack(A, 0) * 2
+            cu.add(0x12, [(0x19, lform, struct.pack(O, off), None), (0x0b, 0x0b, b'\x08', None)])
         # a variable addressed from the frame base; sometimes behind the declaration of a nested function, which has no
         # frame base of its own (readelf then notes '[without DW_AT_frame_base]')
         if rng.random() < 0.5:
@@ -534,7 +553,7 @@ def gen_loc_file(rng):
             if rng.random() < 0.5:
                 # the same through a list: the remark about the missing frame base belongs to the list dump as well
                 off = len(loc)
-                loc += struct.pack(A, 4) + struct.pack(A, 0x20) + struct.pack(E + 'H', len(fe)) + fe + struct.pack(A, 0) * 2
+                loc += struct.pack(A, 4) + struct.pack(A, rng.choice([0x20, 4])) + struct.pack(E + 'H', len(fe)) + fe + struct.pack(A, 0) * 2
                 cu.add(0x34, [(0x02, lform, struct.pack(O, off), None)], label='local_list')
         nr = rng.choice([0, 1, 2])
         for k in range(nr):
@@ -549,6 +568,12 @@ def gen_loc_file(rng):
                 rngs += struct.pack(A, a) + struct.pack(A, b)
             rngs += struct.pack(A, 0) * 2
             cu.add(0x0b, [(0x55, lform, struct.pack(O, off), None)])
+        if nr and rng.random() < 0.5:
+            # the unit entry has ranges of its own, which compilers place behind those of the blocks: the entries do not
+            # mention the lists in section order
+            off = len(rngs)
+            rngs += struct.pack(A, 0) + struct.pack(A, size) + struct.pack(A, 0) * 2
+            cu.root_attrs.append((0x55, lform, struct.pack(O, off), None))
         u, ab, _ = cu.build(abbrev_base=len(abbrevs))
         info += u
         abbrevs += ab
